@@ -55,6 +55,8 @@ struct Case {
     setuid: Option<u32>,
     setgid: Option<u32>,
     setpgid: bool,
+    /// the program is named without a slash and found through the parent's PATH (its directory being the longest entry)
+    by_name: bool,
 }
 
 fn describe(c: &Case) -> J {
@@ -63,6 +65,7 @@ fn describe(c: &Case) -> J {
         .set("argv_bytes", J::i(c.argv.iter().map(|a| a.len()).sum::<usize>() as i64))
         .set("argv_head", J::Arr(c.argv.iter().take(4).map(|a| J::Str(crate::json::show_bytes(a, 40))).collect()))
         .set("exe_override", J::Bool(c.exe_override))
+        .set("named_without_a_slash(found through PATH)", J::Bool(c.by_name))
         .set("env", match &c.env { None => J::s("inherit"), Some(e) => J::s(&format!("{} entries", e.len())) })
         .set("cwd", match &c.cwd { None => J::Null, Some(p) => J::s(&p.to_string_lossy()) })
         .set("ids", J::s(&format!("setuid={:?} setgid={:?} setpgid={}", c.setuid, c.setgid, c.setpgid)))
@@ -73,13 +76,26 @@ fn run_case(ctx: &mut Ctx, c: &Case, class: &str) {
     let dir = ctx.scratch("c06");
     let exe = spawn::report_exe(ctx, &dir, "r", "x");
     let mut argv: Vec<OsString> = c.argv.iter().map(|a| os(a)).collect();
+    // how the program is named: by its path, or by its bare name with its directory on the parent's PATH (as the longest
+    // entry, after and before shorter ones that do not have it)
+    let prog: OsString = if c.by_name { exe.file_name().unwrap().to_owned() } else { exe.clone().into_os_string() };
+    let old_path = std::env::var_os("PATH");
+    if c.by_name {
+        ctx.count("programs_named_without_a_slash_and_found_through_PATH", 1);
+        let mut p = OsString::from("/nonexistent/a:/nonexistent-b:");
+        p.push(dir.as_os_str());
+        if c.argv.len() % 2 == 0 {
+            p.push(":/nonexistent/c");
+        }
+        std::env::set_var("PATH", p);
+    }
     if !c.exe_override {
-        argv[0] = exe.clone().into_os_string();
+        argv[0] = prog.clone();
     }
     let parent_env: Vec<(OsString, OsString)> = std::env::vars_os().collect();
     let parent_cwd = std::env::current_dir().unwrap();
     let config = PopenConfig {
-        executable: if c.exe_override { Some(exe.clone().into_os_string()) } else { None },
+        executable: if c.exe_override { Some(prog.clone()) } else { None },
         env: c.env.as_ref().map(|e| e.iter().map(|(k, v)| (os(k), os(v))).collect()),
         cwd: c.cwd.as_ref().map(|p| p.clone().into_os_string()),
         setuid: c.setuid,
@@ -123,6 +139,12 @@ fn run_case(ctx: &mut Ctx, c: &Case, class: &str) {
     } else {
         run::monitored(|| Popen::create(&argv, config))
     };
+    if c.by_name {
+        match old_path {
+            Some(p) => std::env::set_var("PATH", p),
+            None => std::env::remove_var("PATH"),
+        }
+    }
     let evs = m.events();
     let wit = |extra: J| J::obj().set("case", describe(c)).set("events", J::arr_s(&ilog::fmt_tail(&evs, 30))).set("detail", extra);
     ctx.count("spawns", 1);
@@ -430,7 +452,8 @@ pub fn run(ctx: &mut Ctx) {
         let setuid = if idc & 1 != 0 { Some(*rng.pick(uids)) } else { None };
         let setgid = if idc & 2 != 0 { Some(*rng.pick(&gids)) } else { None };
         let setpgid = idc & 4 != 0;
-        let c = Case { argv, exe_override, env, cwd, setuid, setgid, setpgid };
+        let by_name = rng.chance(250);
+        let c = Case { argv, exe_override, env, cwd, setuid, setgid, setpgid, by_name };
         let class = format!("ids{}", idc);
         ctx.distinct(&format!("{}|{}|{}|{}|{}", shape, exe_override, c.env.as_ref().map(|e| e.len() as i64).unwrap_or(-1), c.cwd.is_some(), idc));
         if i < 2 {
@@ -449,10 +472,81 @@ pub fn run(ctx: &mut Ctx) {
             list.push((names[(x % 3) as usize].to_vec(), format!("v{}", j).into_bytes()));
             x /= 3;
         }
-        let c = Case { argv: vec![b"x".to_vec(), b"".to_vec(), b" ".to_vec()], exe_override: false, env: Some(list), cwd: None, setuid: None, setgid: None, setpgid: false };
+        let c = Case { argv: vec![b"x".to_vec(), b"".to_vec(), b" ".to_vec()], exe_override: false, env: Some(list), cwd: None, setuid: None, setgid: None, setpgid: false, by_name: false };
         ctx.distinct(&format!("dup{}", i));
         ctx.count("duplicate_key_placements", 1);
         run_case(ctx, &c, "dupkeys");
+    });
+    // the parent has no PATH (or an empty one) and the program is a bare name; whatever program of that name the launch
+    // finds (one in the working directory, one on a default path), it is given exactly the environment that was requested
+    let np = ctx.n(60, 1500);
+    ctx.family("parent-without-PATH", np, |ctx, rng, i| {
+        use std::io::Read;
+        run::begin_case();
+        let dir = ctx.scratch("c06p");
+        let fake = dir.join("env");
+        if std::fs::hard_link(&ctx.vchild, &fake).is_err() {
+            std::fs::copy(&ctx.vchild, &fake).unwrap();
+        }
+        let rep = dir.join("env.rep");
+        let mut list: Vec<(OsString, OsString)> = vec![(OsString::from("VCHILD_REPORT"), rep.clone().into_os_string())];
+        for j in 0..rng.range(0, 6) {
+            list.push((OsString::from(format!("REQ{}", j)), OsString::from(format!("value {}", rng.below(1000)))));
+        }
+        let old = std::env::var_os("PATH");
+        if i % 2 == 0 {
+            std::env::remove_var("PATH");
+        } else {
+            std::env::set_var("PATH", "");
+        }
+        let route = i % 3;
+        let list2 = list.clone();
+        let dir2 = dir.clone();
+        let m = run::monitored(move || -> Result<Vec<u8>, String> {
+            let mut p = match route {
+                0 => Popen::create(&["env"], PopenConfig { env: Some(list2), cwd: Some(dir2.into_os_string()), stdout: Redirection::Pipe, ..Default::default() }),
+                1 => subprocess::Exec::cmd("env").env_clear().env_extend(&list2).cwd(&dir2).stdout(Redirection::Pipe).popen(),
+                _ => {
+                    let mut e = subprocess::Exec::cmd("env").cwd(&dir2).stdout(Redirection::Pipe).env_clear();
+                    for (k, v) in &list2 {
+                        e = e.env(k, v);
+                    }
+                    e.popen()
+                }
+            }
+            .map_err(|e| e.to_string())?;
+            let mut out = vec![];
+            if let Some(o) = p.stdout.as_mut() {
+                let _ = o.read_to_end(&mut out);
+            }
+            let _ = p.wait();
+            Ok(out)
+        });
+        match old {
+            Some(p) => std::env::set_var("PATH", p),
+            None => std::env::remove_var("PATH"),
+        }
+        ctx.count("launches_from_a_parent_without_PATH", 1);
+        ctx.distinct(&format!("nopath|{}|{}|{}", i % 2, route, list.len()));
+        let want: BTreeMap<Vec<u8>, Vec<u8>> = list.iter().map(|(k, v)| (k.as_bytes().to_vec(), v.as_bytes().to_vec())).collect();
+        if let Some(Ok(out)) = &m.result {
+            // what did the program that ran receive?  its own report if it is the monitor's stand-in, else what it printed (an env listing)
+            let got: Option<BTreeMap<Vec<u8>, Vec<u8>>> = match crate::kid::wait_report(&rep, 300) {
+                Some(r) => Some(r.env.iter().map(|e| { let eq = e.iter().position(|&c| c == b'=').unwrap_or(e.len()); (e[..eq].to_vec(), e.get(eq + 1..).unwrap_or(b"").to_vec()) }).collect()),
+                None if !out.is_empty() => Some(out.split(|&c| c == b'\n').filter(|l| !l.is_empty()).map(|e| { let eq = e.iter().position(|&c| c == b'=').unwrap_or(e.len()); (e[..eq].to_vec(), e.get(eq + 1..).unwrap_or(b"").to_vec()) }).collect()),
+                None => None,
+            };
+            if let Some(got) = got {
+                ctx.count("children_inspected", 1);
+                if got != want {
+                    let extra: Vec<String> = got.keys().filter(|k| !want.contains_key(*k)).take(6).map(|k| crate::json::show_bytes(k, 30)).collect();
+                    ctx.violation("C06/env/parent-without-PATH", "the program that was started did not receive exactly the requested environment", J::obj().set("requested", J::i(want.len() as i64)).set("received", J::i(got.len() as i64)).set("unrequested_names", J::arr_s(&extra)));
+                }
+            }
+        } else if let Some(p) = &m.panic {
+            ctx.violation("C06/panic/parent-without-PATH", "panic", J::s(p));
+        }
+        run::end_case();
     });
     let nn = ctx.n(400, 10_000);
     ctx.family("nul", nn, |ctx, rng, i| nul_case(ctx, rng, i));
